@@ -126,3 +126,37 @@ Definition shape_clauses (units_except : list Z) (skip_rp : bool) (rs : list ele
     forallb (ws_ok skip_rp false) rs;                                                                            (* 9 white space collapsed *)
     forallb empty_region_ok rs ].                                                                                (* 10 empty regions *)
 Definition isd_shape (rs : list elem) : bool := forallb (fun b => b) (shape_clauses [] false rs).
+
+(* ---- what the shape theorems assume of the SOURCE document -------------------------------------------------------
+   doc/data_model.md, as enforced by the model's push_child / set_style and established for every document
+   reachable through the API by C15.  Only what the clauses need is asked for:
+   * content (clauses 3, 8, 9): every registered region is a region element, the body is a body element, and every
+     element below the body has children of the kinds its class accepts.  Nothing is asked of ruby containers and
+     ruby text containers (their child patterns are re-checked by Ruby/Rtc.push_children when the snapshot is built),
+     nor of what hangs below the registered region elements (snapshot generation does not read it);
+   * values (clause 5): a style property that ISD._compute_styles does not compute carries no length in a unit other
+     than rh/rw — on elements, in animation steps and in the document's initial values (every such property is an
+     enumeration, colour, number or font list in style_properties.py, so StyleProperty.validate implies this). *)
+Definition src_children_ok (e : elem) : bool :=
+  match kind_of e with
+  | KRuby | KRtc => true
+  | _ => children_ok e
+  end.
+Definition doc_content_wf (d : doc) : bool :=
+  forallb (fun r => kind_eqb (kind_of r) KRegion) (d_regions d) &&
+  match d_body d with
+  | None => true
+  | Some b => kind_eqb (kind_of b) KBody && forallb src_children_ok (all_elems b)
+  end.
+
+Definition computed_prop (p : Z) : bool := existsb (Z.eqb p) ordered_style_props.
+Definition src_value_ok (p : Z) (v : value) : bool := computed_prop p || value_units_ok v.
+Definition src_values_ok (e : elem) : bool :=
+  forallb (fun kv => src_value_ok (fst kv) (snd kv)) (e_styles (eattrs e)) &&
+  forallb (fun s => src_value_ok (a_prop s) (a_val s)) (e_anims (eattrs e)).
+Definition doc_values_wf (d : doc) : bool :=
+  forallb (fun kv => src_value_ok (fst kv) (snd kv)) (d_initials d) &&
+  forallb src_values_ok (d_regions d) &&
+  match d_body d with None => true | Some b => forallb src_values_ok (all_elems b) end.
+
+Definition doc_wf (d : doc) : bool := doc_content_wf d && doc_values_wf d.
